@@ -216,6 +216,28 @@ def oracle(ctx, scale):
             if not (np.array_equal(rr, want_ref) and np.array_equal(mm, want_mov)):
                 ctx.violation("split-object", "MultiSetup_PreGER.data: reference rows not in listed order / roving rows not ascending / samples altered", inp | {"setup": i})
                 return
+        # ... and after a preprocessing step (on a second object, so that the identification below sees the raw data)
+        if k % 2 == 0:
+            from scipy import signal as sps
+
+            ms2 = MultiSetup_PreGER(fs=S.fs, ref_ind=[list(r) for r in ref_ind], datasets=[d.copy() for d in datasets])
+            step = ctx.rng.choice(["detrend", "decimate"])
+            if step == "detrend":
+                ms2.detrend_data()
+                proc = [sps.detrend(d, axis=0) for d in datasets]
+            else:
+                ms2.decimate_data(q=2)
+                proc = [sps.decimate(d, 2, axis=0) for d in datasets]
+            for i, d in enumerate(proc):
+                want_ref = d[:, ref_ind[i]].T
+                want_mov = d[:, [c for c in range(d.shape[1]) if c not in ref_ind[i]]].T
+                ctx.oracle_cases += 1
+                rr, mm = ms2.data[i]["ref"], ms2.data[i]["mov"]
+                if rr.shape != want_ref.shape or mm.shape != want_mov.shape or not (np.allclose(rr, want_ref, rtol=1e-10, atol=1e-12) and np.allclose(mm, want_mov, rtol=1e-10, atol=1e-12)):
+                    ctx.violation("split-after-preprocessing", f"MultiSetup_PreGER.data after {step}_data: reference rows not in the listed order / roving rows not ascending / samples altered",
+                                  inp | {"setup": i, "step": step})
+                    return
+            ctx.count(f"split_after_{step}")
         hc = dict(conj=False, xi_max=1.0, mpc_lim=0.0, mpd_lim=math.pi / 2, cov_max=1e9)
         cls = SSIcov_MS if method == "cov_mm" else SSIdat_MS
         kw = dict(name="a", br=br, ordmax=ordmax, hc=hc)
